@@ -12,6 +12,8 @@ import (
 	"io"
 	"math/big"
 	"math/rand/v2"
+	"sync"
+	"sync/atomic"
 
 	"golang.org/x/crypto/sha3"
 
@@ -633,9 +635,90 @@ func entropyCase(r *mon.Run, c Case) {
 	entropy.Check(r, "C12", r.Rng(c.Stream), func(sig, what string) { r.Violate(sig, what, c) })
 }
 
+// sharedContext: a SigningContext is made once per protocol and used by every goroutine of a program. Transcripts
+// derived from ONE context concurrently, each from its own message (bytes, hash and XOF sources), must be the
+// transcripts a single goroutine derives: signatures equal the schnorrkel values and verify.
+func sharedContext(r *mon.Run, c Case) {
+	rng := r.Rng(c.Stream)
+	ctx := mon.Bytes(rng, 9)
+	sctx := sr25519.NewSigningContext(ctx)
+	s, ok := mkSigner(r, c, mon.Bytes(rng, 32), false)
+	if !ok {
+		return
+	}
+	const G, per = 8, 24
+	type job struct {
+		msg  []byte
+		kind int
+		ent  []byte
+		want []byte
+	}
+	jobs := make([][]job, G)
+	for g := range jobs {
+		for i := 0; i < per; i++ {
+			j := job{msg: mon.Bytes(rng, 1+rng.IntN(90)), kind: i % 4, ent: mon.Bytes(rng, 32)}
+			_, rt, _ := transcripts(rng, ctx, j.msg, kindNoChunk(j.kind))
+			j.want = s.rs.Sign(rt, j.ent)
+			jobs[g] = append(jobs[g], j)
+		}
+	}
+	var wg sync.WaitGroup
+	var wrong, rejected int64
+	for g := 0; g < G; g++ {
+		wg.Add(1)
+		go func(g int) {
+			defer wg.Done()
+			for _, j := range jobs[g] {
+				var st *sr25519.SigningTranscript
+				switch j.kind {
+				case 1:
+					h := sha256.New()
+					h.Write(j.msg)
+					st = sctx.NewTranscriptHash(h)
+				case 2:
+					h := sha512.New()
+					h.Write(j.msg)
+					st = sctx.NewTranscriptHash(h)
+				case 3:
+					x := sha3.NewShake128()
+					x.Write(j.msg)
+					st = sctx.NewTranscriptXOF(x)
+				default:
+					st = sctx.NewTranscriptBytes(j.msg)
+				}
+				sig, err := s.kp.Sign(&fixed{j.ent}, st)
+				if err != nil {
+					atomic.AddInt64(&wrong, 1)
+					continue
+				}
+				b, _ := sig.MarshalBinary()
+				if !bytes.Equal(b, j.want) {
+					atomic.AddInt64(&wrong, 1)
+				}
+				if !s.kp.PublicKey().Verify(st, sig) {
+					atomic.AddInt64(&rejected, 1)
+				}
+			}
+		}(g)
+	}
+	wg.Wait()
+	r.EvalN(G * per)
+	r.HistN("shared-context/concurrent-transcripts", G*per)
+	if wrong > 0 || rejected > 0 {
+		r.Violate("sr25519/shared-signing-context-under-concurrency", fmt.Sprintf("%d of %d signatures over transcripts derived concurrently from one SigningContext differ from the schnorrkel value, %d do not verify on their own transcript", wrong, G*per, rejected), c)
+	}
+}
+
+// kindNoChunk maps a transcript kind to itself (the reference twin is independent of how the XOF is read).
+func kindNoChunk(k int) int { return k }
+
 func runCase(r *mon.Run, c Case) {
 	if c.Kind == "entropy" {
 		entropyCase(r, c)
+		return
+	}
+	if c.Kind == "shared-context" {
+		sharedContext(r, c)
 		return
 	}
 	switch c.Kind {
@@ -667,6 +750,9 @@ func main() {
 		cases = append(cases, Case{Kind: "batch", Stream: fmt.Sprintf("c12/batch/%d", i), Idx: i})
 	}
 	r.Parallel(len(cases), func(i int) { runCase(r, cases[i]) })
+	for i := 0; i < r.Pick(4, 40); i++ {
+		sharedContext(r, Case{Kind: "shared-context", Stream: fmt.Sprintf("c12/shared-context/%d", i)})
+	}
 	for i := 0; i < r.Pick(6, 60); i++ {
 		entropyCase(r, Case{Kind: "entropy", Stream: fmt.Sprintf("c12/entropy/%d", i)})
 	}
